@@ -48,6 +48,34 @@ def run_job(job):
             c["harness"] = job["harness"]
             c["params"] = params
         res["engine"] = "A"
+        # vacuity guard: reachability twins (same precondition; must come back 'violated')
+        if res["verdict"] == "confirmed" and not job.get("no_twin"):
+            from .hx import Reached
+            labels = ["end"] + list(getattr(mod, "REACH", {}).get(job["harness"], []))
+            twins = {}
+            for label in labels:
+                p2 = dict(params)
+                p2["reach"] = label
+
+                def twin(_p2=p2, _label=label, **kw):
+                    try:
+                        h(_p2, **kw)
+                    except Reached:
+                        raise AssertionError("reached " + _label)
+                    if _label == "end":
+                        raise AssertionError("reached end")
+
+                r2 = xh.explore(twin, sig, budget_s=max(10.0, float(job.get("budget", 60)) / 3),
+                                per_path_timeout=float(job.get("per_path_timeout", 30)))
+                ok = r2["verdict"] == "counterexample"
+                twins[label] = jsonx.enc(r2["counterexamples"][0]["args"]) if ok else None
+                res["stats"]["paths"] += r2["stats"]["paths"]
+            res["twins"] = twins
+            res["samples"] = [{"reachability_witness": k, "args": v} for k, v in twins.items() if v is not None][:3]
+            missing = [k for k, v in twins.items() if v is None]
+            if missing:
+                res["verdict"] = "inconclusive"
+                res["reason"] = "vacuity guard: reachability twin(s) %s not reached" % missing
         return res
     elif kind == "py":
         f = getattr(mod, job["func"])
